@@ -120,12 +120,18 @@ class Ctx:
         """Evaluate a clause that another property's module implements (fn reports under that module's rule ids) as a
         clause of THIS property: ids in `mapping` are renamed, everything else fn reports is dropped.  A structural
         condition that is necessary for two properties is decided once and reported by both."""
-        old = self._alias
+        old, old_only = self._alias, getattr(self, '_only', None)
         self._alias = dict(mapping)
+        self._only = None
+        if args and isinstance(args[-1], dict) and set(args[-1]) == {'only'}:
+            # last argument {'only': predicate on the violation key}: this property states the clause for part of the sites
+            self._only = args[-1]['only']
+            args = args[:-1]
         try:
             return fn(*args)
         finally:
             self._alias = old
+            self._only = old_only
 
     def _rid(self, rid):
         if self._alias is None:
@@ -153,6 +159,8 @@ class Ctx:
         """key: discriminator WITHOUT line numbers; full key = rid:fn:key"""
         rid = self._rid(rid)
         if rid is None:
+            return None
+        if self._alias is not None and getattr(self, '_only', None) is not None and not self._only(key):
             return None
         full = '%s:%s:%s' % (rid, fn or '-', key)
         self.rules[rid].instances.append((full, False, msg, True))
